@@ -322,6 +322,9 @@ class _Proxy:
     def check_crc(self):
         return True
 
+    def __getattr__(self, name):
+        return getattr(self.d, name)
+
 
 class _Folder:
     def __init__(self, proxy):
@@ -726,10 +729,13 @@ def check_contracts(ctx, rep, rng, tier):
                 n = rng.choice([70001, 200003])
             jobs.append({"codec": name, "seed": rng.getrandbits(32), "n": n,
                          "texture": rng.choice(["random", "period", "text", "code", "zeros"])})
+    # a deterministic witness of the pyppmd decoder fault (hangs inside Ppmd7Decoder.decode), kept so that the
+    # classification of PPMd session failures does not depend on the random draw
+    jobs.append({"codec": "ppmd", "seed": 244817139, "n": 70001, "texture": "random"})
     table = rep.extra.setdefault("codec_contracts", {})
 
     def one(job):
-        return job, run_sandboxed("harness.c01:contract_case", job, timeout=60, mem_mb=3000)
+        return job, run_sandboxed("harness.c01:contract_case", job, timeout=25 if tier == "quick" else 60, mem_mb=3000)
     with ThreadPoolExecutor(16) as ex:
         results = list(ex.map(one, jobs))
     faults = {}
@@ -805,9 +811,17 @@ def gen_spec(rng, tier, idx, chains, fast_only=False):
     names = sorted(chains)
     if fast_only:
         names = [n for n in names if n.split("+")[-1 if not n.endswith("+aes") else -2] in ("copy", "zstd", "deflate") or n in ("copy+aes", "lzma2", "aes")]
-    chain = names[idx % len(names)] if idx < 2 * len(names) and not fast_only else rng.choice(names)
+    if fast_only:
+        chain = rng.choice(names)
+    elif idx < len(names):
+        chain = names[idx]                      # every chain at least once
+    else:
+        plain = [n for n in names if not n.endswith("aes")]
+        chain = rng.choice(plain if rng.random() < 0.65 else names)
     aes = chain.endswith("aes")
-    block = rng.choice([None, None, 16, 17, 4096, 32768] + ([7] if aes and rng.random() < 0.3 else []))
+    target = rng.choice(["path", "bytesio", "fileobj", "rawfile", "multivolume", "multivolume"])
+    # block sizes below 16 break 7zAES on any target (aes-small-block); kept apart from the short reads of multi-volume files
+    block = rng.choice([None, None, 16, 17, 4096, 32768] + ([7] if aes and target != "multivolume" and rng.random() < 0.25 else []))
     if fast_only:
         block = None
     limit = rng.choice([None, None, 1, 7, 4096])
@@ -826,13 +840,12 @@ def gen_spec(rng, tier, idx, chains, fast_only=False):
             n = rng.choice(around)
         else:
             n = rng.choice(base + [rng.randrange(0, 3000)])
-        if limit in (1, 7) and n > 20000:
+        if limit in (1, 7) and n > (600 if "ppmd" in chain else 4200):
             n = rng.choice(base)       # a chunk limit of 1 byte on a megabyte member is a million calls
         if chain in SLOW and n > 70000:
             n = rng.choice(base + [4097])
         total += n
         members.append([name, {"n": n, "texture": rng.choice(TEXTURES), "seed": rng.getrandbits(32)}])
-    target = rng.choice(["path", "bytesio", "fileobj", "rawfile", "multivolume", "multivolume"])
     volume = rng.choice([64, 70, 100, 257, 1000, 4096, 4100])
     if target == "multivolume" and total // volume > 3000:
         volume = 4096 if total // 4096 <= 3000 else 1 << 20
@@ -976,10 +989,12 @@ def run_session(spec):
 
 
 def _packsize(blob, password):
+    """[pack size of the folder, offset of the next header]: the folder's packed stream occupies 32 .. 32+packsize, the
+    packed stream of an encoded header 32+packsize .. 32+nextheaderofs"""
     import py7zr
     with py7zr.SevenZipFile(io.BytesIO(blob), "r", password=password) as z:
         ms = z.header.main_streams
-        return None if ms is None else int(ms.packinfo.packsizes[0])
+        return [0 if ms is None else int(sum(ms.packinfo.packsizes)), int(z.sig_header.nextheaderofs)]
 
 
 def batch_worker(specs):
@@ -1028,6 +1043,12 @@ def classify(ctx, spec, r):
     total = sum(m["n"] for _, m in spec["members"])
     keys = {"kind": "roundtrip", "chain": chain, "stage": r["stage"], "exc": r["exc"], "target": spec["target"]}
     desc = "%s %s %s" % (r["stage"], r["exc"], r["msg"])
+    if spec["target"] == "multivolume" and r["stage"] == "read" and r.get("fullread_ok") is False and r.get("fullread_exc"):
+        # the archive does not read back from one full-read stream either: judge that failure (the volumes only add to it)
+        e, _, m = r["fullread_exc"].partition(": ")
+        r = dict(r, exc=e, msg=m)
+        desc = "%s %s %s (also when the volumes are presented as one stream)" % (r["stage"], r["exc"], r["msg"])
+        keys.update(exc=e)
     if spec["target"] == "multivolume" and r["stage"] == "read" and r.get("fullread_ok"):
         # the archive is intact: the same bytes read back through a stream that never returns short reads
         where = "aes" if (r["exc"] == "ValueError" and "16 byte" in r["msg"]) else "header"
@@ -1035,11 +1056,25 @@ def classify(ctx, spec, r):
         desc = "multi-volume archive (volume size %d, %s volumes) is written correctly (reads back as one stream) but through " \
                "multivolumefile, whose read() stops at volume boundaries, reopening fails: %s" % (spec["volume"], r.get("volumes"), desc)
         if where == "aes" and model is not None and r.get("packsize"):
+            # the model's verdict on the read schedule _read_data produces on these volumes (RoundTrip.mv_chunks /
+            # dec_sizes_ok = Aes.dec_chunks_ok): for the folder's stream and for the stream of an encrypted header
             bs = spec["block"] or (1 << 20)
-            pred = model.call("mv_chunks_t", [100000, 32, r["packsize"], bs, spec["volume"]])
-            keys["model_predicts"] = "raise" if pred[1] == 0 else "ok"
+            psz, nho = r["packsize"]
+            ok_all = True
+            if aes and psz > 0:
+                ok_all = ok_all and model.call("mv_chunks_t", [200000, 32, psz, bs, spec["volume"]])[1] == 1
+            if spec["header"] == "encrypted" and nho > psz:
+                ok_all = ok_all and model.call("mv_chunks_t", [200000, 32 + psz, nho - psz, bs, spec["volume"]])[1] == 1
+            if ok_all:
+                keys = {"kind": "short-read-unexplained", "where": "aes"}   # the model says these schedules are fine
+                desc = "MODEL DISAGREES (predicts a safe read schedule): " + desc
         return desc, keys
-    if aes and spec["block"] is not None and spec["block"] < 16 and r["exc"] == "ValueError" and "16 byte" in r["msg"]:
+    if spec["target"] == "multivolume" and r["exc"] == "RecursionError" and r["stage"] in ("write", "close"):
+        keys = {"kind": "multivolume-recursion"}
+        return "multivolumefile.MultiVolume.write() recurses once per volume: one fp.write() spanning about 1000 volumes or more " \
+               "(volume size %d) exceeds the recursion limit while the archive is being written: %s" % (spec["volume"], desc), keys
+    if aes and spec["block"] is not None and spec["block"] < 16 and r["exc"] == "ValueError" and (
+            "16 byte" in r["msg"] or ("ppmd" in chain and "Not enough data" in r["msg"])):
         keys = {"kind": "aes-small-block", "block": spec["block"]}
         return "I/O block size %d < 16 with 7zAES: AESDecompressor receives chunks that leave 0 < residue+chunk < 16: %s" % (spec["block"], desc), keys
     if aes and "brotli" in parts and r["stage"] == "read" and r["exc"] == "error":
@@ -1057,10 +1092,10 @@ def classify(ctx, spec, r):
 
 def check_e2e(ctx, rep, rng, tier):
     chains = all_chains()
-    n = 520 if tier == "quick" else 11000
+    n = 440 if tier == "quick" else 11000
     specs = [gen_spec(rng, tier, i, chains) for i in range(n)]
     # default block size with members around the block size: fast chains only
-    nbig = 28 if tier == "quick" else 400
+    nbig = 24 if tier == "quick" else 400
     specs += [gen_spec(rng, tier, i, chains, fast_only=True) for i in range(nbig)]
     if tier != "quick":
         # slower codecs at the default block size
@@ -1073,7 +1108,10 @@ def check_e2e(ctx, rep, rng, tier):
     specs.append({"chain": "copy+aes", "password": "pw", "header": "encoded", "target": "multivolume", "volume": (1 << 20) + 4,
                   "block": None, "limit": None, "api": "writestr",
                   "members": [["big.bin", {"n": 2097200 - 32 - 16, "texture": "random", "seed": 7}], ["tail", {"n": 40, "texture": "text", "seed": 8}]]})
-    results = run_specs(specs, per_batch=12 if tier == "quick" else 25)
+    # one write() spanning more than 1000 volumes of 64 bytes
+    specs.append({"chain": "copy", "password": None, "header": "encoded", "target": "multivolume", "volume": 64, "block": None,
+                  "limit": None, "api": "writestr", "members": [["m", {"n": 100000, "texture": "text", "seed": 1}]]})
+    results = run_specs(specs, per_batch=6 if tier == "quick" else 20)
     ok = 0
     for spec, r in results:
         nontrivial = any(m["n"] > 0 for _, m in spec["members"])
